@@ -42,6 +42,8 @@ pub enum Mismatch {
 pub enum Shape {
     Ok,
     Oversized,
+    /// value of exactly the store's size limit (5 MiB): the first size that is refused
+    ExactlyAtSizeLimit,
     Headerless,
     UnknownKindTag,
     TruncatedPayload,
@@ -64,7 +66,7 @@ fn case_strategy() -> BoxedStrategy<Case> {
         prop_oneof![Just(Kind::Chunk), Just(Kind::Pad), Just(Kind::Tx), Just(Kind::Reg)],
         prop_oneof![Just(Path::ClientPut), Just(Path::UnpaidUpdate), Just(Path::Replicated)],
         prop_oneof![3 => Just(Mismatch::None), 3 => Just(Mismatch::RandomKey), 3 => Just(Mismatch::OtherObjectKey), 1 => Just(Mismatch::MixedOwners)],
-        prop_oneof![30 => Just(Shape::Ok), 1 => Just(Shape::Oversized), 2 => Just(Shape::Headerless), 2 => Just(Shape::UnknownKindTag), 2 => Just(Shape::TruncatedPayload)],
+        prop_oneof![30 => Just(Shape::Ok), 1 => Just(Shape::Oversized), 1 => Just(Shape::ExactlyAtSizeLimit), 2 => Just(Shape::Headerless), 2 => Just(Shape::UnknownKindTag), 2 => Just(Shape::TruncatedPayload)],
         any::<bool>(),
         any::<bool>(),
         any::<u8>(),
@@ -148,6 +150,18 @@ fn check(case: &Case, ctx: &mut Ctx) {
             let c = fix::chunk(9, 5 * 1024 * 1024 + 16);
             rec = fix::chunk_record(&c);
         }
+        Shape::ExactlyAtSizeLimit => {
+            const MAX: usize = 5 * 1024 * 1024;
+            let mut len = MAX - 7;
+            for _ in 0..3 {
+                let c = fix::chunk(9, len);
+                rec = fix::chunk_record(&c);
+                if rec.value.len() == MAX {
+                    break;
+                }
+                len = (len + MAX).saturating_sub(rec.value.len());
+            }
+        }
         Shape::Headerless => rec.value = fix::pseudo_bytes(case.seed as u64, (case.seed % 3) as usize),
         Shape::UnknownKindTag => {
             if rec.value.len() > 2 {
@@ -180,7 +194,7 @@ fn check(case: &Case, ctx: &mut Ctx) {
             cl.run_tasks();
             cl.collect();
             let forwarded = cl.pending.iter().any(|a| matches!(a, Action::Event(_, ant_networking::NetworkEvent::UnverifiedRecord(_))));
-            if case.shape == Shape::Oversized {
+            if matches!(case.shape, Shape::Oversized | Shape::ExactlyAtSizeLimit) {
                 if put_res.is_ok() {
                     ctx.fail("oversized_record_not_refused", format!("value of {} bytes accepted by RecordStore::put", rec.value.len()));
                 }
